@@ -202,6 +202,45 @@ def main():
                 if not (d_ <= 1e-10):
                     chk.violation("uniform profiles (u, v, Kx, Ky, Kz) = %s given as integer arrays (%s mode, analytic=%s) differ from the same values as float arrays by %.3e relative"
                                   % (vals, "footprint" if fp else "dispersion", an, d_), {"kind": "integer_profiles", "values": vals, "analytic": an}, klass={"check": "integer_profiles", "analytic": an})
+    # the closed form itself, component by component, written out by the harness with numpy's transforms (dispersion mode, no
+    # halo, every mode of the grid retained - even and odd grids, so that the unpaired edge row / column of an even mode count is
+    # among the components): q(h) = q0 exp(-beta h), p(h) = q(h) / (Kz beta), beta^2 = (Kx k^2 + Ky l^2 + i (u k + v l)) / Kz, the
+    # mean flux constant and the mean concentration linear in h.  At the roughness node the flux IS the source.
+    from bldfm.solver import steady_state_transport_solver as _steady
+
+    ncf = 0
+    for (nx_, ny_) in ((8, 6), (9, 7), (6, 9)):
+        for vals in ((3.0, 1.0, 2.0, 2.0, 2.0), (2.0, -1.5, 1.0, 3.0, 0.8)):
+            zc = 0.2 * 1.3 ** np.arange(13)
+            profc = tuple(np.full(13, v_) for v_ in vals)
+            domc = (16.0 * nx_, 12.0 * ny_)
+            qc = rng.standard_normal((ny_, nx_)) + 0.3
+            lv = [0, 4, 12, 7]
+            bg = 0.4
+            _, pc, fc = _steady(qc, zc, profc, domc, lv, modes=(64, 64), halo=0.0, analytic=True, precision="double", srf_bg_conc=bg)
+            pc, fc = np.asarray(pc).reshape(len(lv), ny_, nx_), np.asarray(fc).reshape(len(lv), ny_, nx_)
+            u_, v_, Kx_, Ky_, Kz_ = vals
+            kk = 2 * np.pi * np.fft.fftfreq(nx_, d=domc[0] / nx_)[None, :]
+            ll = 2 * np.pi * np.fft.fftfreq(ny_, d=domc[1] / ny_)[:, None]
+            beta = np.sqrt((Kx_ * kk ** 2 + Ky_ * ll ** 2 + 1j * (u_ * kk + v_ * ll)) / Kz_ + 0j)
+            qh = np.fft.fft2(qc)
+            for k_, node in enumerate(lv):
+                h_ = zc[node] - zc[0]
+                G = np.exp(-beta * h_)
+                with np.errstate(divide="ignore", invalid="ignore"):
+                    P = G / (Kz_ * beta)
+                P[0, 0] = 0.0
+                want_f = np.fft.ifft2(qh * G).real
+                want_p = np.fft.ifft2(qh * P).real + bg - qc.mean() * h_ / Kz_
+                ncf += 1
+                sc_ = max(float(np.max(np.abs(want_f))), float(np.max(np.abs(want_p))))
+                d_ = max(float(np.max(np.abs(fc[k_] - want_f))), float(np.max(np.abs(pc[k_] - want_p)))) / sc_
+                if not d_ <= 1e-9:
+                    chk.violation("analytic mode on a %d x %d grid, all modes, (u, v, Kx, Ky, Kz) = %s: the fields at node %d differ from the closed form evaluated component by component by %.3e relative%s"
+                                  % (nx_, ny_, vals, node, d_, " (at the roughness node the flux is the source itself)" if node == 0 else ""),
+                                  {"kind": "closed_form", "grid": [nx_, ny_], "values": vals, "node": node}, klass={"check": "closed_form", "node0": node == 0})
+                    break
+    chk.extra["closed_form_slices"] = ncf
     chk.extra["numeric_vs_analytic_slots"] = nslot
     chk.traces += len(r.emitted)
     chk.extra["probe_points"] = len(r.emitted)
